@@ -414,6 +414,20 @@ def melody_optional_job(size, which):
     return j
 
 
+def hierarchy_spans_job(size):
+    """hierarchy.evaluate on hierarchies of different durations (the documented pre-processing fits the estimate to the reference's span)"""
+    ev0 = E.by_task('hierarchy')
+    ev = E.Ev('hierarchy', HIER.evaluate, lambda ctx, size_: E._b_hier_spans(ctx, size), ev0.sizes, ev0.funcs, exact_floats=ev0.exact_floats, timeout_s=ev0.timeout_s)
+    old = E.EVALS
+    try:
+        E.EVALS = [ev]
+        j = semantic_job('hierarchy', size)
+    finally:
+        E.EVALS = old
+    j.name = 'semantic:hierarchy.evaluate[%s,independent durations]' % 'x'.join(map(str, size))
+    return j
+
+
 def key_semantic_job(k):
     ev = E.by_task('key')
 
@@ -459,4 +473,8 @@ def jobs(tier):
         js.append(melody_optional_job((1, 0), which))
     if not q:
         js.append(melody_optional_job((2, 0), (False, True)))
+    js.append(hierarchy_spans_job((2, 2)))
+    if not q:
+        js.append(hierarchy_spans_job((2, 1)))
+        js.append(hierarchy_spans_job((1, 2)))
     return js
